@@ -145,6 +145,12 @@ pub fn run(ctx: &mut Ctx) {
     o.strip_max = 300;
     let total = ctx.n;
     let seed = ctx.seed;
+    let threads_step = ctx.sub == "threads";
+    if threads_step {
+        assert!(firv::pool::enabled(), "the threads step needs the rayon feature");
+        // bigger destinations so that bands exist
+        o.max_side = 120;
+    }
     ctx.drive(
         total,
         |_, idx| {
@@ -222,7 +228,12 @@ pub fn run(ctx: &mut Ctx) {
         },
         |k, stats, viols| {
             let cc = &k.cc;
-            match &k.extra {
+            // threads step: the same calls inside rayon pools of 1, 2, 3, 8 threads
+            let threads = if threads_step { [1usize, 2, 3, 8][(cc.c.sw as usize + cc.c.dh as usize) % 4] } else { 0 };
+            if threads_step {
+                stats.seen("thread_pool_sizes", threads);
+            }
+            let body = |stats: &mut Stats, viols: &mut Vec<Viol>| match &k.extra {
                 None | Some(Extra::Degenerate(_)) => {
                     if cc.op == 0 {
                         with_px!(cc.c.pt, P => exec_resize::<P>(cc, stats, viols))
@@ -232,6 +243,11 @@ pub fn run(ctx: &mut Ctx) {
                 }
                 Some(Extra::Map(m, f, i, p)) => exec_map(cc, *m, *f, *i, *p, stats, viols),
                 Some(Extra::Change(p, t)) => exec_change(cc, *p, *t, stats, viols),
+            };
+            if threads_step {
+                firv::pool::install(threads, || body(stats, viols))
+            } else {
+                body(stats, viols)
             }
         },
     );
